@@ -59,7 +59,9 @@ class C17Hook:
         if len(rec["sources"]) != len(op["paths"]) and not rec.get("abandoned"):
             run.violation("C17-order", ts.ti, oi, "$sources", len(op["paths"]), len(rec["sources"]))
         for si, s in enumerate(rec["sources"]):
-            text, why = readable(fs, s["path"])
+            mem = s.get("mem")
+            text, why = (mem["text"], "ok") if mem is not None else readable(fs, s["path"])
+            uri = mem["uri"] if mem is not None else s["path"]
             if s["status"] == "missing":
                 run.violation("C17-order", ts.ti, oi, "$source[%d]" % si, "an event for path %r" % s["path"], "source iterator ended early")
                 continue
@@ -74,7 +76,7 @@ class C17Hook:
             self.stats["sources_compared"] += 1
             if s["data"] != text:
                 run.violation("C17-model", ts.ti, oi, "$source[%d].data" % si, text, s["data"])
-            exp, _nd, accepted = model_source(text, s["path"], opts)
+            exp, _nd, accepted = model_source(text, uri, opts, 0, mem["mediaType"] if mem is not None else "text/x.cucumber.gherkin+plain")
             act = s["norm"]
             if s["status"] == "foreign":
                 run.violation("C17-foreign", ts.ti, oi, "$source[%d].enum" % si, "envelopes only", s.get("error"))
@@ -237,7 +239,7 @@ def _mk_fs(rng, nfiles, tname):
     return files, binfiles, faults, paths, labels
 
 
-def _stream_ops(rng, paths, nstreams, nops):
+def _stream_ops(rng, paths, nstreams, nops, texts=None):
     ops = []
     for _ in range(nops):
         k = rng.randint(1, min(6, max(1, len(paths) + 1)))
@@ -249,7 +251,15 @@ def _stream_ops(rng, paths, nstreams, nops):
         r = rng.random()
         cons = {"k": "drain"} if r < 0.62 else {"k": "take", "n": rng.randint(0, 6), "close": rng.random() < 0.5} if r < 0.9 else \
             {"k": "zip", "order": [rng.randrange(6) for _ in range(rng.randint(0, 40))]}
-        ops.append({"op": "stream", "s": rng.randrange(nstreams), "paths": chosen, "consumer": cons})
+        op = {"op": "stream", "s": rng.randrange(nstreams), "paths": chosen, "consumer": cons}
+        if texts and cons["k"] != "zip" and rng.random() < 0.12:
+            # a source event built by the caller in memory: the uri need not be a file at all
+            i = rng.randrange(len(chosen))
+            t = texts.get(chosen[i].replace("//", "/").replace("/./", "/"))
+            if t is not None:
+                op["events"] = {str(i): {"uri": rng.choice([chosen[i], "memory:doc%d" % i, "features/with space/\u00fcn\u00ef.feature"]), "text": t,
+                                         "mediaType": rng.choice(["text/x.cucumber.gherkin+plain", "text/x.cucumber.gherkin+plain", "text/x.cucumber.gherkin+markdown"])}}
+        ops.append(op)
     return ops
 
 
@@ -273,7 +283,7 @@ def gen_hist(rng):
     files, binfiles, faults, paths, labels = _mk_fs(rng, rng.randint(1, 6), "t0")
     nstreams = rng.randint(1, 3)
     streams = [{"o": ALL_OPTS[rng.randrange(8)] if rng.random() < 0.6 else [True, True, True]} for _ in range(nstreams)]
-    ops = _stream_ops(rng, paths, nstreams, rng.randint(1, 4))
+    ops = _stream_ops(rng, paths, nstreams, rng.randint(1, 4), files)
     if len(ops) > 1 and rng.random() < 0.35:
         # the file behind a uri changes between two reads of the same uri
         used = [p for op in ops for p in op["paths"] if p in files and p not in faults]
